@@ -650,23 +650,23 @@ def _order_sub(name, ex_q, ex_t, weight):
 
 
 SUBCHECKS = [
-    _order_sub('crank_nicolson_rk4', 60, 1500, 9),
-    _order_sub('crank_nicolson_rk3', 60, 1500, 7),
-    _order_sub('imex_rk_sil3', 60, 1500, 6),
-    _order_sub('crank_nicolson_rk2', 60, 1500, 4),
-    _order_sub('backward_forward_euler', 60, 1500, 3),
+    _order_sub('crank_nicolson_rk4', 60, 6000, 9),
+    _order_sub('crank_nicolson_rk3', 60, 6000, 7),
+    _order_sub('imex_rk_sil3', 60, 6000, 6),
+    _order_sub('crank_nicolson_rk2', 60, 6000, 4),
+    _order_sub('backward_forward_euler', 60, 6000, 3),
     Subcheck('order_leapfrog', run_order_leapfrog, strategy=lambda tier: _leapfrog_order_case(),
-             examples={'quick': 60, 'thorough': 1500}, shards={'quick': 1, 'thorough': 2},
+             examples={'quick': 60, 'thorough': 6000}, shards={'quick': 1, 'thorough': 2},
              wall={'quick': 300.0, 'thorough': 2400.0}, weight=5,
              rule='non-trivial = F != 0, G != 0 and non-commuting',
              doc='leapfrog with exact u(-h), u(0): u(h) through h^2 (alpha = 1/2) / h^1 (otherwise)'),
     Subcheck('reductions', run_reduction, strategy=lambda tier: _reduction_case(),
-             examples={'quick': 60, 'thorough': 1500}, shards={'quick': 2, 'thorough': 6},
+             examples={'quick': 60, 'thorough': 6000}, shards={'quick': 2, 'thorough': 6},
              wall={'quick': 300.0, 'thorough': 2400.0}, weight=4,
              rule='non-trivial = step size h >= 0.05 (a finite step, far from the Taylor regime)',
              doc='F=0 -> implicit method (CN products / backward Euler / DIRK), G=0 -> explicit RK in Butcher form'),
     Subcheck('stiff_stability', run_stability, strategy=lambda tier: _stab_case(),
-             examples={'quick': 60, 'thorough': 2000}, shards={'quick': 1, 'thorough': 8},
+             examples={'quick': 60, 'thorough': 8000}, shards={'quick': 1, 'thorough': 8},
              wall={'quick': 300.0, 'thorough': 2400.0}, weight=3,
              rule='non-trivial = the case contains z with |z| > 100',
              doc='|R(z)| <= 1 + 1e-12 on the closed left half-plane, R == closed form; leapfrog spectral radius'),
@@ -799,7 +799,7 @@ def run_generic(case):
 
 SUBCHECKS.append(
     Subcheck('generic_tableaux', run_generic, strategy=lambda tier: _generic_case(),
-             examples={'quick': 60, 'thorough': 1500}, shards={'quick': 2, 'thorough': 6},
+             examples={'quick': 60, 'thorough': 6000}, shards={'quick': 2, 'thorough': 6},
              wall={'quick': 300.0, 'thorough': 2400.0}, weight=3,
              rule='non-trivial = >= 3 stages and a non-zero implicit operator',
              doc='imex_runge_kutta / low_storage_runge_kutta_crank_nicolson with generated coefficient sets (lists, '
